@@ -61,6 +61,30 @@ class Ctx:
                 % (count, what, minimum, "" if ok else " -- anchor lost or rule matches vacuously"))
         return ok
 
+    def run_c_rule(self, name, fn, flavours):
+        """run a clang-AST rule once per C preprocessor flavour (r_c.C_FLAVOURS); obligations aggregate by key"""
+        import r_c
+        for fl in flavours:
+            r_c.set_flavour(fl)
+            try:
+                self.rules_run.append(name) if name not in self.rules_run else None
+                self.current_rule = name
+                self.current_cfg = "c:" + fl
+                try:
+                    fn(self)
+                except MissingAnchor as e:
+                    self.ob(False, "anchor-missing:%s" % str(e), "", str(e))
+                except SystemExit:
+                    raise
+                except Exception as e:
+                    tb = traceback.format_exc()
+                    self.errors.append("%s[%s]: ...%s" % (name, fl, tb[-1200:]))
+                    self.ob(False, "rule-crashed", "", "%s: %s" % (type(e).__name__, e))
+            finally:
+                r_c.set_flavour("gnu-x86_64")
+                self.current_rule = None
+                self.current_cfg = None
+
     def run_rule(self, name, fn, cfgs=(None,)):
         self.rules_run.append(name)
         for cfg in cfgs:
